@@ -11,7 +11,7 @@ RULE = ("roundtrip: lists of 1-8 files (machine-language, BASIC, ASCII type 0/1;
         "extensions 0-3; data lengths from the sector/granule grid {0,1,2,5,10, 256k+-11, 2304k-16..+11}, uniform 0-6000 "
         "or up to 40000; arbitrary content) written with DiskFile.add_files under the default or a permuted "
         "granule_fill_order, re-opened with DiskFile(buffer=...).list_files() and compared field by field; the tool's "
-        "listing is also compared with the independent reader. foreign: the same file lists written by the independent "
+        "listing is also compared with the independent reader. foreign (each such image is then extended by two files through the tool: every file already there and each new one lists, the image stays valid): the same file lists written by the independent "
         "writer on arbitrary chains (shuffled, non-adjacent, crossing track 17, both sector-edge conventions, "
         "arbitrary directory slots) and listed by the tool. Enumerated: single file of every length 2280..2320 and "
         "4590..4620 x 3 kinds x {tool default, tool reversed order, foreign scattered chain}. Non-trivial = a file of "
@@ -22,7 +22,7 @@ ASSUMPTIONS = [
     "names compare case-insensitively, at most 8 characters; extensions case-insensitively, at most 3",
     "load / entry addresses are compared for machine-language files only (other kinds do not store them)",
 ]
-HEALTH = {"multi_granule": 0.08, "edge_length": 0.08, "foreign": 0.12, "non_adjacent": 0.08}
+HEALTH = {"multi_granule": 0.08, "edge_length": 0.08, "foreign": 0.12, "non_adjacent": 0.08, "foreign_extended": 0.1}
 EXHAUSTIVE = {"quick": ["single file of every data length 2280..2320 and 4590..4620 x 3 kinds x 3 placements"],
               "thorough": ["single file of every data length 2280..2320 and 4590..4620 x 3 kinds x 3 placements"]}
 
@@ -154,4 +154,32 @@ def execute(case):
         if bad:
             return viol("the same file objects written to a second disk{}: {}".format(", the first of them twice" if twice else "", bad),
                         fid="C07:reused-objects", labels=labels)
+    if case["mode"] == "foreign" and used + 3 <= 68 and len(files) <= 60:
+        # two more files are written into the foreign image (scattered chains, killed directory entries in front of live
+        # ones): every file already there still lists, each new one lists once, and the image stays a valid filesystem
+        taken = set(f["name"][:8].upper() for f in files)
+        names = [n for n in ("ZZNEW1", "ZZNEW2", "QQNEW1", "QQNEW2") if n not in taken][:2]
+        new = [dict(name=names[0], ext="BIN", kind="ml", ftype=2, dtype=0, load=0x3000, exec=0x3002, data=dict(n=300, k=7, mode=0, head="", tail="")),
+               dict(name=names[1], ext="TXT", kind="ascii", ftype=1, dtype=0xFF, load=0, exec=0, data=dict(n=2400, k=8, mode=1, head="", tail=""))]
+        ndatas = [filegen.expand(f["data"]) for f in new]
+        try:
+            ext = DiskFile(buffer=list(image))
+            ext.add_files([filegen.to_coco(f, d) for f, d in zip(new, ndatas)])
+            image2 = list(ext.get_buffer())
+            problems = dskref.fsck(image2)
+            listed2 = DiskFile(buffer=list(image2)).list_files()
+        except Exception as err:
+            return viol("foreign image extended by two files: raised {}: {}".format(type(err).__name__, err), fid="C07:extend:raise", labels=labels)
+        if problems:
+            return viol("foreign image extended by two files: {}".format(problems[0]), fid="C07:extend:fsck", labels=labels)
+        pool = list(listed2)
+        for f, d in list(zip(files, datas)) + list(zip(new, ndatas)):
+            hit = next((g for g in pool if filegen.disk_listing_mismatch([g], [f], [d]) is None), None)
+            if hit is None:
+                return viol("foreign image extended by two files: {!r} no longer lists as stored ({} files listed, {} expected)".format(
+                    f["name"], len(listed2), len(files) + 2), fid="C07:extend:lost", labels=labels)
+            pool.remove(hit)
+        if pool:
+            return viol("foreign image extended by two files: {} unexpected files listed".format(len(pool)), fid="C07:extend:extra", labels=labels)
+        labels = labels + ["foreign_extended"]
     return ok(labels=labels, nontrivial=bool(set(labels) & {"multi_granule", "edge_length", "permuted", "non_adjacent"}))
